@@ -81,6 +81,13 @@ def _estimate_system_molecular_weight(molecules, system_molweight):
             return False
         mol.mixture.system_mass = system_weight
 
+    # All components know their absolute mass now, together they have to make up the system.
+    masses = [mol.mixture.absolute_mass for mol in molecules]
+    if None not in masses and abs(sum(masses) - system_weight) > 1e-6 * max(1.0, system_weight):
+        raise RuntimeError(
+            f"System described with inconsistent masses {masses} for a total of {system_weight}."
+        )
+
     return True
 
 
